@@ -273,7 +273,7 @@ func hist(depth int, viaDialer bool) {
 				w.nsend++
 				msg := fmt.Sprintf("m%d", w.nsend)
 				before := w.attached.NumSent()
-				c := kit.Start("Send", func() (interface{}, error) { return nil, s.Send([]byte(msg)) })
+				c := kit.Start("Send", func() (interface{}, error) { return nil, kit.SendBytes(s, []byte(msg)) })
 				kit.Quiesce()
 				if !c.Done() || c.Err != nil {
 					kit.Failf("send-stuck", "Send on the reconnected socket: done=%v %s", c.Done(), kit.ErrName(c.Err))
@@ -474,7 +474,7 @@ func protocolRefusal() {
 	if !p.Alive() {
 		kit.Failf("no-takeover", "the first peer has gone but the dialed connection still does not attach")
 	}
-	sc := kit.Start("Send", func() (interface{}, error) { return nil, s.Send([]byte("hello")) })
+	sc := kit.Start("Send", func() (interface{}, error) { return nil, kit.SendBytes(s, []byte("hello")) })
 	kit.Quiesce()
 	if !sc.Done() || sc.Err != nil || p.NumSent() != 1 {
 		kit.Failf("traffic-not-resumed", "after the takeover Send: done=%v %s, peer has %d messages", sc.Done(), kit.ErrName(sc.Err), p.NumSent())
